@@ -1,10 +1,10 @@
 from props import reg
 
 reg("C08",
-    check_imports=["Model.Block", "Model.Forkable", "Model.Burst", "Model.Hub", "Model.HubSubs", "Check.Burst_Check", "Check.C08_Check"],
-    case_type="c08_case", verdicts="c08_verdicts", scope="c08_in_scope",
+    check_imports=["Model.Block", "Model.Forkable", "Model.Burst", "Model.Hub", "Model.HubSubs", "Model.HubAll", "Check.Burst_Check", "Check.C08_Check"],
+    case_type="c08x_case", verdicts="c08x_verdicts", scope="c08x_in_scope",
     property_modules=[], theorems=[],
-    proof_files=["Base/Prelude.v", "Model/Block.v", "Model/ForkDB.v", "Model/Forkable.v", "Model/Burst.v", "Model/Hub.v", "Model/HubSubs.v",
+    proof_files=["Base/Prelude.v", "Model/Block.v", "Model/ForkDB.v", "Model/Forkable.v", "Model/Burst.v", "Model/Hub.v", "Model/HubSubs.v", "Model/HubAll.v",
                  "Spec/Consumer.v", "Check/Burst_Check.v", "Check/C08_Check.v", "Model/HubSched.v", "Check/C08S_Check.v"],
     n_quick=300, n_thorough=12000, n_escalate=3000,
     # schedule-level model (Model/HubSched.v) against the real code at lock granularity: harness/c08sched.go, Check/C08S_Check.v
